@@ -229,15 +229,21 @@ Qed.
 
 End Contracts.
 
-Lemma extract_conditional_block_f_bounds : forall fixed lf n lines start t k,
-  extract_conditional_block_f fixed lf n lines start = POk (t, k) ->
+Lemma extract_conditional_block_f_bounds : forall fixed cap lf n depth lines start t k,
+  extract_conditional_block_f fixed cap lf n depth lines start = POk (t, k) ->
   (exists brs, t = TCond brs) /\ 1 <= k /\ k <= length lines - start.
-Proof. intros fixed lf [|n] lines start t k H; simpl in H; [discriminate|]. eapply cond_body_bounds; eauto. Qed.
+Proof.
+  intros fixed cap lf [|n] depth lines start t k H; cbn [extract_conditional_block_f] in H; [discriminate|].
+  destruct (too_deep cap depth); [discriminate|]. eapply cond_body_bounds; eauto.
+Qed.
 
-Lemma extract_loop_block_f_bounds : forall fixed lf n lines start t k,
-  extract_loop_block_f fixed lf n lines start = POk (t, k) ->
+Lemma extract_loop_block_f_bounds : forall fixed cap lf n depth lines start t k,
+  extract_loop_block_f fixed cap lf n depth lines start = POk (t, k) ->
   (exists v c ct chs, t = TLoop v c ct chs) /\ 1 <= k /\ k <= length lines - start.
-Proof. intros fixed lf [|n] lines start t k H; simpl in H; [discriminate|]. eapply loop_body_bounds; eauto. Qed.
+Proof.
+  intros fixed cap lf [|n] depth lines start t k H; cbn [extract_loop_block_f] in H; [discriminate|].
+  destruct (too_deep cap depth); [discriminate|]. eapply loop_body_bounds; eauto.
+Qed.
 
 Lemma join_collect_bounds : forall indent rest block k,
   snd (join_collect indent rest block k) <= k + length rest.
@@ -260,3 +266,721 @@ Proof.
   - destruct (join_parse lf start (detect_and_strip_indentation (s :: block)) 0 [] []) as [[c e]|d|e|];
       simpl in H; try discriminate. inversion H; subst. cbn [snd] in B. lia.
 Qed.
+
+(* ------------------------------------------------------------------------------------------- *)
+(* outcomes: value or diagnostic (internal errors only where `b` allows them), never OutOfFuel   *)
+(* ------------------------------------------------------------------------------------------- *)
+Section Outcomes.
+Variable fixed : bool.
+Variable cap : option nat.
+Variable lf : linefns.
+Variable b : bool.
+Hypothesis Hlf : lf_allowed b lf.
+Hypothesis Hemx : lf_progress lf.
+(* the unpatched legacy headers can raise UnboundLocalError *)
+Hypothesis Hver : fixed = true \/ b = true.
+
+Let Hcontent := proj1 Hlf.
+Let Hchoice := proj1 (proj2 Hlf).
+Let Hrender := proj1 (proj2 (proj2 Hlf)).
+Let Hinput := proj2 (proj2 (proj2 Hlf)).
+
+Lemma flush_plain_lines_allowed : forall ded content, allowed b (flush_plain_lines lf content ded).
+Proof.
+  induction ded as [|l r IH]; intros; simpl; auto.
+  apply allowed_bind; [apply Hcontent|]. intros; apply IH.
+Qed.
+
+Lemma flush_plain_allowed : forall content ls, allowed b (flush_plain lf content ls).
+Proof. intros; apply flush_plain_lines_allowed. Qed.
+
+Lemma content_line_glue_allowed : forall content l, allowed b (content_line_glue lf content l).
+Proof.
+  intros. unfold content_line_glue. destruct (glue_split l);
+    (apply allowed_bind; [apply Hcontent|]; intros; simpl; auto).
+Qed.
+
+Lemma flush_glue_lines_allowed : forall ded content, allowed b (flush_glue_lines lf content ded).
+Proof.
+  induction ded as [|l r IH]; intros; simpl; auto.
+  apply allowed_bind; [apply content_line_glue_allowed|]. intros; apply IH.
+Qed.
+
+Lemma flush_cur_allowed : forall st, allowed b (flush_cur lf st).
+Proof.
+  intros st. unfold flush_cur. destruct (cs_cur st) as [[[c content] chs]|]; simpl; auto.
+  apply allowed_bind; [apply flush_plain_allowed|]. intros; simpl; auto.
+Qed.
+
+Lemma finalize_allowed : forall st, allowed b (finalize lf st).
+Proof.
+  intros st. unfold finalize. destruct (cs_cur st) as [[[c content] chs]|]; simpl; auto.
+  apply allowed_bind; [apply flush_glue_lines_allowed|]. intros; simpl; auto.
+Qed.
+
+(* a step result: allowed, and `i += consumed` moves forward *)
+Definition stepok (r : pres cstep) : Prop :=
+  allowed b r /\ forall st k, r = POk (CNext st k) -> 1 <= k.
+
+Lemma stepok_bind : forall A (m : pres A) (f : A -> pres cstep),
+  allowed b m -> (forall a, m = POk a -> stepok (f a)) -> stepok (pbind m f).
+Proof.
+  intros A [a|d|i|] f H K; simpl in *.
+  - auto.
+  - split; [exact I|discriminate].
+  - split; [exact H|discriminate].
+  - contradiction.
+Qed.
+
+Lemma stepok_next1 : forall st, stepok (POk (CNext st 1)).
+Proof. intros st; split; [exact I|]. intros st' k E. inversion E. lia. Qed.
+
+Lemma stepok_done : forall brs, stepok (POk (CDone brs)).
+Proof. intros; split; [exact I|discriminate]. Qed.
+
+Lemma stepok_diag : forall d, stepok (PDiag d).
+Proof. intros; split; [exact I|discriminate]. Qed.
+
+Lemma start_new_branch_ok : forall st c cv, stepok (start_new_branch lf st c cv).
+Proof.
+  intros. unfold start_new_branch. apply stepok_bind; [apply finalize_allowed|].
+  intros; apply stepok_next1.
+Qed.
+
+Lemma legacy_condition_allowed : forall p site i s1 st,
+  allowed b (legacy_condition fixed p site i s1 st).
+Proof.
+  intros. unfold legacy_condition. destruct (match_legacy p s1); simpl; auto.
+  destruct Hver as [F|B].
+  - rewrite F. simpl; auto.
+  - destruct fixed; simpl; auto. destruct (cs_condvar st); simpl; auto.
+Qed.
+
+Section Bodies.
+Variable rec_cond rec_loop : list string -> nat -> pres (token * nat).
+
+Lemma cond_step_ok : forall lines start i line st,
+  nth_error lines i = Some line ->
+  (i <> start -> recok b (rec_cond lines i)) ->
+  (is_for_line (strip line) = true -> has_cur st = true -> recok b (rec_loop lines i)) ->
+  stepok (cond_step fixed lf rec_cond rec_loop lines start i line st).
+Proof.
+  intros lines start i line st Hn Hc Hl. unfold cond_step. cbv zeta.
+  destruct (startswith (strip line) "#"); [apply stepok_next1|].
+  destruct (is_py_line (strip line) && has_cur st).
+  { apply stepok_bind; [apply flush_cur_allowed|]. intros st1 _.
+    destruct (extract_python_block_recok b lines i line Hn) as [A P].
+    apply stepok_bind; [exact A|]. intros [c k] E. split; [exact I|].
+    intros st' k' E'. inversion E'; subst. simpl. eapply P; eauto. }
+  destruct (startswith (strip line) "@input" && has_cur st).
+  { apply stepok_bind; [apply flush_cur_allowed|]. intros st1 _.
+    apply stepok_bind; [apply Hinput|]. intros; apply stepok_next1. }
+  destruct (startswith (strip line) "@render" && has_cur st).
+  { apply stepok_bind; [apply flush_cur_allowed|]. intros st1 _.
+    apply stepok_bind; [apply Hrender|]. intros; apply stepok_next1. }
+  destruct (startswith (strip line) "@hook " && has_cur st).
+  { apply stepok_bind; [apply flush_cur_allowed|]. intros; apply stepok_next1. }
+  destruct (startswith (strip line) "@unhook " && has_cur st).
+  { apply stepok_bind; [apply flush_cur_allowed|]. intros; apply stepok_next1. }
+  destruct (startswith (strip line) "~ " && has_cur st).
+  { apply stepok_bind; [apply flush_cur_allowed|]. intros st1 _. split; [exact I|].
+    intros st' k E. inversion E; subst. unfold py_statement. apply Hemx. }
+  destruct (is_if_line (strip line) && negb (i =? start) && has_cur st) eqn:Eif.
+  { apply andb_prop in Eif. destruct Eif as [Eif _]. apply andb_prop in Eif. destruct Eif as [_ Ene].
+    apply negb_true_iff in Ene. apply Nat.eqb_neq in Ene. destruct (Hc Ene) as [A P].
+    apply stepok_bind; [apply flush_cur_allowed|]. intros st1 _.
+    apply stepok_bind; [exact A|]. intros [t k] E. split; [exact I|].
+    intros st' k' E'. inversion E'; subst. simpl. eapply P; eauto. }
+  destruct (is_for_line (strip line) && has_cur st) eqn:Efor.
+  { apply andb_prop in Efor. destruct Efor as [E1 E2]. destruct (Hl E1 E2) as [A P].
+    apply stepok_bind; [apply flush_cur_allowed|]. intros st1 _.
+    apply stepok_bind; [exact A|]. intros [t k] E. split; [exact I|].
+    intros st' k' E'. inversion E'; subst. simpl. eapply P; eauto. }
+  destruct (is_if_line (strip line) && (i =? start)).
+  { apply stepok_bind; [|intros; apply stepok_next1].
+    destruct (startswith (strip line) "@if ").
+    - destruct (match_colon_tail "@if" _); simpl; auto.
+    - apply legacy_condition_allowed. }
+  destruct (String.eqb (strip line) "@endif:"); [apply stepok_diag|].
+  destruct (startswith (strip line) "<<endif>>" || String.eqb (strip line) "@endif").
+  { apply stepok_bind; [apply finalize_allowed|]. intros; apply stepok_done. }
+  destruct (startswith (strip line) "<<elif " || startswith (strip line) "@elif ").
+  { apply stepok_bind; [|intros; apply start_new_branch_ok].
+    destruct (startswith (strip line) "@elif ").
+    - destruct (match_colon_tail "@elif" _); simpl; auto.
+    - apply legacy_condition_allowed. }
+  destruct (startswith (strip line) "<<else>>" || startswith (strip line) "@else").
+  { destruct (startswith (strip line) "@else" && _); [apply stepok_diag|apply start_new_branch_ok]. }
+  destruct (startswith (strip line) "->").
+  { destruct (jump_of lf (strip line)); [|apply stepok_next1].
+    destruct (has_cur st); [|apply stepok_next1].
+    apply stepok_bind; [apply flush_cur_allowed|]. intros; apply stepok_next1. }
+  destruct (is_choice_line (strip line) && has_cur st).
+  { apply stepok_bind; [apply flush_cur_allowed|]. intros st1 _.
+    apply stepok_bind; [apply Hchoice|]. intros; apply stepok_next1. }
+  apply stepok_next1.
+Qed.
+
+(* state facts used by the invariant "no current branch at the start line" *)
+Lemma cond_go_allowed : forall lines start rest i skip st,
+  skipn i lines = rest -> start <= i ->
+  (i = start -> skip = 0 /\ has_cur st = false) ->
+  (forall j, start < j -> j < length lines -> recok b (rec_cond lines j)) ->
+  (forall j l, start < j -> nth_error lines j = Some l -> is_for_line (strip l) = true ->
+               recok b (rec_loop lines j)) ->
+  allowed b (cond_go fixed lf rec_cond rec_loop lines start rest i skip st).
+Proof.
+  induction rest as [|line rest IH]; intros i skip st Hs Hi H0 Hc Hl; cbn [cond_go]; [exact I|].
+  destruct (skipn_cons_nth _ _ _ _ _ Hs) as [Hn Hs'].
+  assert (Hlt : i < length lines) by (eapply skipn_cons_lt; eauto).
+  assert (Hnext : forall k st', allowed b (cond_go fixed lf rec_cond rec_loop lines start rest (S i) k st')).
+  { intros k st'. apply IH; auto; try lia. }
+  destruct skip as [|k]; [|apply Hnext].
+  assert (S1 : stepok (cond_step fixed lf rec_cond rec_loop lines start i line st)).
+  { apply cond_step_ok; auto.
+    - intros Hne. apply Hc; lia.
+    - intros Hf Hcur. apply Hl with (l := line); auto.
+      destruct (Nat.eq_dec i start) as [E|E]; [|lia].
+      destruct (H0 E) as [_ F]. congruence. }
+  destruct S1 as [A P].
+  destruct (cond_step fixed lf rec_cond rec_loop lines start i line st) as [[st' [|k]|brs]|d|e|].
+  - specialize (P st' 0 eq_refl). lia.
+  - apply Hnext.
+  - exact I.
+  - exact I.
+  - exact A.
+  - exact A.
+Qed.
+
+Lemma cond_body_allowed : forall lines start,
+  (forall j, start < j -> j < length lines -> recok b (rec_cond lines j)) ->
+  (forall j l, start < j -> nth_error lines j = Some l -> is_for_line (strip l) = true ->
+               recok b (rec_loop lines j)) ->
+  allowed b (cond_body fixed lf rec_cond rec_loop lines start).
+Proof.
+  intros lines start Hc Hl. unfold cond_body. apply cond_go_allowed; auto.
+Qed.
+
+Lemma loop_collect_allowed : forall start rest i started depth raw var coll,
+  allowed b (loop_collect start rest i started depth raw var coll).
+Proof.
+  induction rest as [|line rest IH]; intros; cbn [loop_collect]; [exact I|].
+  destruct (is_for_line (strip line) && (i =? start)).
+  - destruct (startswith (strip line) "@for ").
+    + destruct (match_for_colon _) as [[v c]|]; [apply IH|exact I].
+    + destruct (match_for_legacy _) as [[v c]|]; [apply IH|exact I].
+  - destruct (String.eqb (strip line) "@endfor:"); [exact I|].
+    destruct (started && is_for_line (strip line)); [apply IH|].
+    destruct (startswith (strip line) "<<endfor>>" || String.eqb (strip line) "@endfor").
+    + destruct ((depth - 1 =? 0)%Z); [exact I|apply IH].
+    + apply IH.
+Qed.
+
+Definition bstepok (r : pres (list token * list choice * nat)) : Prop :=
+  allowed b r /\ forall c h k, r = POk (c, h, k) -> 1 <= k.
+
+Lemma bstepok_bind : forall A (m : pres A) f,
+  allowed b m -> (forall a, m = POk a -> bstepok (f a)) -> bstepok (pbind m f).
+Proof.
+  intros A [a|d|i|] f H K; simpl in *.
+  - auto.
+  - split; [exact I|discriminate].
+  - split; [exact H|discriminate].
+  - contradiction.
+Qed.
+
+Lemma bstepok_1 : forall c h, bstepok (POk (c, h, 1)).
+Proof. intros; split; [exact I|]. intros c' h' k E. inversion E. lia. Qed.
+
+Lemma body_step_ok : forall ded j line content chs,
+  nth_error ded j = Some line ->
+  (is_if_line (strip line) = true -> recok b (rec_cond ded j)) ->
+  (is_for_line (strip line) = true -> recok b (rec_loop ded j)) ->
+  bstepok (body_step lf rec_cond rec_loop ded j line content chs).
+Proof.
+  intros ded j line content chs Hn Hc Hl. unfold body_step. cbv zeta.
+  destruct (startswith (strip line) "#"); [apply bstepok_1|].
+  destruct (is_py_line (strip line)).
+  { destruct (extract_python_block_recok b ded j line Hn) as [A P].
+    apply bstepok_bind; [exact A|]. intros [c k] E. split; [exact I|].
+    intros c' h' k' E'. inversion E'; subst. simpl. eapply P; eauto. }
+  destruct (startswith (strip line) "@input").
+  { apply bstepok_bind; [apply Hinput|]. intros; apply bstepok_1. }
+  destruct (startswith (strip line) "@render").
+  { apply bstepok_bind; [apply Hrender|]. intros; apply bstepok_1. }
+  destruct (startswith (strip line) "@hook "); [apply bstepok_1|].
+  destruct (startswith (strip line) "@unhook "); [apply bstepok_1|].
+  destruct (startswith line "~ ").
+  { split; [exact I|]. intros c' h' k E. inversion E; subst. unfold py_statement. apply Hemx. }
+  destruct (is_for_line (strip line)) eqn:Ef.
+  { destruct (Hl eq_refl) as [A P]. apply bstepok_bind; [exact A|]. intros [t k] E.
+    split; [exact I|]. intros c' h' k' E'. inversion E'; subst. simpl. eapply P; eauto. }
+  destruct (is_if_line (strip line)) eqn:Ei.
+  { destruct (Hc eq_refl) as [A P]. apply bstepok_bind; [exact A|]. intros [t k] E.
+    split; [exact I|]. intros c' h' k' E'. inversion E'; subst. simpl. eapply P; eauto. }
+  destruct (startswith (strip line) "->"); [apply bstepok_1|].
+  destruct (is_choice_line (strip line)).
+  { apply bstepok_bind; [apply Hchoice|]. intros; apply bstepok_1. }
+  apply bstepok_bind; [apply content_line_glue_allowed|]. intros; apply bstepok_1.
+Qed.
+
+Lemma body_go_allowed : forall ded rest j skip content chs,
+  skipn j ded = rest ->
+  (forall j l, nth_error ded j = Some l -> is_if_line (strip l) = true -> recok b (rec_cond ded j)) ->
+  (forall j l, nth_error ded j = Some l -> is_for_line (strip l) = true -> recok b (rec_loop ded j)) ->
+  allowed b (body_go lf rec_cond rec_loop ded rest j skip content chs).
+Proof.
+  induction rest as [|line rest IH]; intros j skip content chs Hs Hc Hl; cbn [body_go]; [exact I|].
+  destruct (skipn_cons_nth _ _ _ _ _ Hs) as [Hn Hs'].
+  destruct skip as [|k]; [|apply IH; auto].
+  destruct (body_step_ok ded j line content chs Hn) as [A P]; eauto.
+  destruct (body_step lf rec_cond rec_loop ded j line content chs) as [[[c h] [|k]]|d|e|].
+  - specialize (P c h 0 eq_refl). lia.
+  - apply IH; auto.
+  - exact I.
+  - exact A.
+  - exact A.
+Qed.
+
+(* the dedented body is never longer than what follows the start line when that line is a header *)
+Lemma loop_collect_raw_header : forall start line rest found i' raw' v' c',
+  is_for_line (strip line) = true ->
+  loop_collect start (line :: rest) start false 0%Z [] "" "" = POk (found, i', raw', v', c') ->
+  length raw' <= length rest.
+Proof.
+  intros start line rest found i' raw' v' c' Hf H. cbn [loop_collect] in H.
+  rewrite Hf, Nat.eqb_refl in H. simpl andb in H. cbv iota in H.
+  destruct (startswith (strip line) "@for ").
+  - destruct (match_for_colon _) as [[v c]|]; [|discriminate].
+    apply loop_collect_bounds in H. simpl in H. lia.
+  - destruct (match_for_legacy _) as [[v c]|]; [|discriminate].
+    apply loop_collect_bounds in H. simpl in H. lia.
+Qed.
+
+Lemma dedent_length : forall ls, length (detect_and_strip_indentation ls) = length ls.
+Proof.
+  intros ls. unfold detect_and_strip_indentation. destruct (base_indent ls); auto. apply map_length.
+Qed.
+
+Lemma loop_body_allowed : forall lines start l0,
+  nth_error lines start = Some l0 -> is_for_line (strip l0) = true ->
+  (forall ded j, length ded < length lines - start -> recok b (rec_cond ded j)) ->
+  (forall ded j l, length ded < length lines - start -> nth_error ded j = Some l ->
+                   is_for_line (strip l) = true -> recok b (rec_loop ded j)) ->
+  allowed b (loop_body lf rec_cond rec_loop lines start).
+Proof.
+  intros lines start l0 Hn Hf Hc Hl. unfold loop_body.
+  pose proof (loop_collect_allowed start (skipn start lines) start false 0%Z [] "" "") as A.
+  destruct (loop_collect start (skipn start lines) start false 0 [] "" "")
+    as [[[[[found i] raw] var] coll]|d|e|] eqn:E; simpl in A |- *; auto.
+  assert (Hlen : length raw < length lines - start).
+  { destruct (skipn start lines) as [|x rest] eqn:Es.
+    - exfalso. assert (L : start < length lines) by (apply nth_error_Some; rewrite Hn; discriminate).
+      assert (L2 : length (skipn start lines) = 0) by (rewrite Es; auto).
+      rewrite skipn_length in L2. lia.
+    - destruct (skipn_cons_nth _ _ _ _ _ Es) as [Hx _]. rewrite Hn in Hx. inversion Hx; subst x.
+      apply loop_collect_raw_header in E; auto.
+      assert (L2 : length (skipn start lines) = S (length rest)) by (rewrite Es; auto).
+      rewrite skipn_length in L2. lia. }
+  apply allowed_bind.
+  - apply body_go_allowed; auto; intros j l H1 H2; [apply Hc|eapply Hl; eauto]; rewrite dedent_length; auto.
+  - intros [ct chs] _. destruct found; simpl; auto.
+Qed.
+
+End Bodies.
+
+(* tying the knot: fuel above len(lines) - start is enough at every level *)
+Lemma extract_f_ok : forall n,
+  (forall depth lines start, length lines - start < n ->
+     recok b (extract_conditional_block_f fixed cap lf n depth lines start)) /\
+  (forall depth lines start l0, length lines - start < n ->
+     nth_error lines start = Some l0 -> is_for_line (strip l0) = true ->
+     recok b (extract_loop_block_f fixed cap lf n depth lines start)).
+Proof.
+  induction n as [|n [IHc IHl]]; [split; intros; lia|].
+  split.
+  - intros depth lines start Hlt. split.
+    + cbn [extract_conditional_block_f]. destruct (too_deep cap depth); [exact I|].
+      apply cond_body_allowed.
+      * intros j H1 H2. apply IHc. lia.
+      * intros j l H1 H2 H3. eapply IHl; eauto.
+        assert (j < length lines) by (apply nth_error_Some; rewrite H2; discriminate). lia.
+    + intros t k E. apply extract_conditional_block_f_bounds in E. lia.
+  - intros depth lines start l0 Hlt Hn Hf. split.
+    + cbn [extract_loop_block_f]. destruct (too_deep cap depth); [exact I|].
+      eapply loop_body_allowed; eauto.
+      * intros ded j L. apply IHc. lia.
+      * intros ded j l L En Ef. eapply IHl; eauto. lia.
+    + intros t k E. apply extract_loop_block_f_bounds in E. lia.
+Qed.
+
+(* with the nesting cap of F11b the recursion depth is bounded by the cap, whatever the input:
+   fuel (= number of nested extractor calls on one path) m - depth + 1 is enough for every line list *)
+Lemma extract_f_ok_capped : forall m, cap = Some m -> forall n,
+  (forall depth lines start, m - depth < n ->
+     recok b (extract_conditional_block_f fixed cap lf n depth lines start)) /\
+  (forall depth lines start l0, m - depth < n ->
+     nth_error lines start = Some l0 -> is_for_line (strip l0) = true ->
+     recok b (extract_loop_block_f fixed cap lf n depth lines start)).
+Proof.
+  intros m Hcap. induction n as [|n [IHc IHl]]; [split; intros; lia|].
+  assert (T : forall depth, too_deep cap depth = false -> depth < m).
+  { intros depth H. unfold too_deep in H. rewrite Hcap in H. apply Nat.leb_gt in H. exact H. }
+  split.
+  - intros depth lines start Hlt. split.
+    + cbn [extract_conditional_block_f]. destruct (too_deep cap depth) eqn:Et; [exact I|].
+      apply T in Et. apply cond_body_allowed.
+      * intros j H1 H2. apply IHc. lia.
+      * intros j l H1 H2 H3. eapply IHl; eauto. lia.
+    + intros t k E. apply extract_conditional_block_f_bounds in E. lia.
+  - intros depth lines start l0 Hlt Hn Hf. split.
+    + cbn [extract_loop_block_f]. destruct (too_deep cap depth) eqn:Et; [exact I|].
+      apply T in Et. eapply loop_body_allowed; eauto.
+      * intros ded j L. apply IHc. lia.
+      * intros ded j l L En Ef. eapply IHl; eauto. lia.
+    + intros t k E. apply extract_loop_block_f_bounds in E. lia.
+Qed.
+
+End Outcomes.
+
+(* ------------------------------------------------------------------------------------------- *)
+(* extract_join_choice_block                                                                    *)
+(* ------------------------------------------------------------------------------------------- *)
+Lemma join_parse_allowed : forall b lf, (forall s, allowed b (lf_content lf s)) ->
+  forall start ded j content exec, allowed b (join_parse lf start ded j content exec).
+Proof.
+  intros b lf H start. induction ded as [|line r IH]; intros; cbn [join_parse]; [exact I|].
+  cbv zeta.
+  destruct (negb (nonempty (strip line))); [apply IH|].
+  destruct (startswith (strip line) "#"); [apply IH|].
+  destruct (startswith (strip line) "~"); [apply IH|].
+  destruct (startswith (strip line) "@hook "); [destruct (hook_parts _) as [[e t]|]; apply IH|].
+  destruct (startswith (strip line) "@unhook "); [destruct (hook_parts _) as [[e t]|]; apply IH|].
+  apply allowed_bind; [apply allowed_at_line; apply H|]. intros; apply IH.
+Qed.
+
+Lemma extract_join_allowed : forall b lf, (forall s, allowed b (lf_content lf s)) ->
+  forall lines start indent, allowed b (extract_join_choice_block lf lines start indent).
+Proof.
+  intros b lf H lines start indent. unfold extract_join_choice_block.
+  destruct (join_collect indent (skipn start lines) [] 0) as [block k].
+  destruct block; [exact I|].
+  apply allowed_bind; [apply join_parse_allowed; auto|]. intros; exact I.
+Qed.
+
+(* ------------------------------------------------------------------------------------------- *)
+(* top level: the fuel the model uses                                                            *)
+(* ------------------------------------------------------------------------------------------- *)
+Lemma extract_conditional_block_v_ok : forall fixed cap lf b,
+  lf_allowed b lf -> lf_progress lf -> fixed = true \/ b = true ->
+  forall lines start, recok b (extract_conditional_block_v fixed cap lf lines start).
+Proof.
+  intros fixed cap lf b H1 H2 H3 lines start. unfold extract_conditional_block_v, block_fuel.
+  apply (proj1 (extract_f_ok fixed cap lf b H1 H2 H3 _)). lia.
+Qed.
+
+Lemma extract_loop_block_v_ok : forall fixed cap lf b,
+  lf_allowed b lf -> lf_progress lf -> fixed = true \/ b = true ->
+  forall lines start l0, nth_error lines start = Some l0 -> is_for_line (strip l0) = true ->
+  recok b (extract_loop_block_v fixed cap lf lines start).
+Proof.
+  intros fixed cap lf b H1 H2 H3 lines start l0 Hn Hf. unfold extract_loop_block_v, block_fuel.
+  eapply (proj2 (extract_f_ok fixed cap lf b H1 H2 H3 _)); eauto.
+Qed.
+
+(* ------------------------------------------------------------------------------------------- *)
+(* structure: a conditional opened by an if-header has at least one branch                      *)
+(* ------------------------------------------------------------------------------------------- *)
+Lemma hash_not_if : forall s, startswith s "#" = true -> is_if_line s = false.
+Proof.
+  intros [|a r] H; simpl in H; [discriminate|].
+  apply andb_prop in H. destruct H as [H _]. apply Ascii.eqb_eq in H. subst a. reflexivity.
+Qed.
+
+Section Branches.
+Variable fixed : bool.
+Variable lf : linefns.
+Variable rec_cond rec_loop : list string -> nat -> pres (token * nat).
+
+Definition keeps (r : pres cstep) : Prop :=
+  (forall st k, r = POk (CNext st k) -> has_cur st = true) /\
+  (forall brs, r = POk (CDone brs) -> brs <> []).
+
+Lemma keeps_bind : forall A (m : pres A) f,
+  (forall a, m = POk a -> keeps (f a)) -> keeps (pbind m f).
+Proof. intros A [a|d|i|] f K; simpl; auto; split; intros; discriminate. Qed.
+
+Lemma keeps_next : forall st k, has_cur st = true -> keeps (POk (CNext st k)).
+Proof. intros st k H; split; intros; [congruence|discriminate]. Qed.
+
+Lemma keeps_diag : forall d, keeps (PDiag d).
+Proof. intros; split; intros; discriminate. Qed.
+
+Lemma flush_cur_has : forall st st1, flush_cur lf st = POk st1 -> has_cur st1 = has_cur st.
+Proof.
+  intros st st1 H. unfold flush_cur in H. unfold has_cur.
+  destruct (cs_cur st) as [[[c ct] chs]|] eqn:E.
+  - destruct (flush_plain lf ct (cs_lines st)); simpl in H; try discriminate.
+    inversion H; subst. reflexivity.
+  - inversion H; subst. rewrite E. reflexivity.
+Qed.
+
+Lemma push_tok_has : forall st t, has_cur (push_tok st t) = has_cur st.
+Proof.
+  intros st t. unfold push_tok, has_cur. destruct (cs_cur st) as [[[c ct] chs]|] eqn:E; simpl; auto.
+  rewrite E. reflexivity.
+Qed.
+
+Lemma push_opt_has : forall st t, has_cur (push_opt st t) = has_cur st.
+Proof. intros st [t|]; simpl; auto. apply push_tok_has. Qed.
+
+Lemma push_choice_has : forall st ch, has_cur (push_choice st ch) = has_cur st.
+Proof.
+  intros st [ch|]; unfold push_choice, has_cur; destruct (cs_cur st) as [[[c ct] chs]|] eqn:E;
+    simpl; auto; rewrite E; reflexivity.
+Qed.
+
+Lemma finalize_nonempty : forall st brs, has_cur st = true -> finalize lf st = POk brs -> brs <> [].
+Proof.
+  intros st brs H F. unfold finalize in F. unfold has_cur in H.
+  destruct (cs_cur st) as [[[c ct] chs]|]; [|discriminate].
+  destruct (flush_glue lf ct (cs_lines st)); simpl in F; try discriminate.
+  inversion F. destruct (cs_branches st); discriminate.
+Qed.
+
+Lemma start_new_branch_keeps : forall st c cv, keeps (start_new_branch lf st c cv).
+Proof.
+  intros. unfold start_new_branch. apply keeps_bind. intros brs _. apply keeps_next. reflexivity.
+Qed.
+
+Ltac flush_then :=
+  apply keeps_bind; let st1 := fresh "st1" in let E := fresh "E" in intros st1 E;
+  apply flush_cur_has in E.
+
+Lemma cond_step_keeps : forall lines start i line st,
+  has_cur st = true -> keeps (cond_step fixed lf rec_cond rec_loop lines start i line st).
+Proof.
+  intros lines start i line st Hc. unfold cond_step. cbv zeta.
+  destruct (startswith (strip line) "#"); [apply keeps_next; auto|].
+  destruct (is_py_line (strip line) && has_cur st).
+  { flush_then. apply keeps_bind. intros ck _. apply keeps_next. rewrite push_tok_has. congruence. }
+  destruct (startswith (strip line) "@input" && has_cur st).
+  { flush_then. apply keeps_bind. intros d _. apply keeps_next. rewrite push_opt_has. congruence. }
+  destruct (startswith (strip line) "@render" && has_cur st).
+  { flush_then. apply keeps_bind. intros d _. apply keeps_next. rewrite push_opt_has. congruence. }
+  destruct (startswith (strip line) "@hook " && has_cur st).
+  { flush_then. apply keeps_next. rewrite push_opt_has. congruence. }
+  destruct (startswith (strip line) "@unhook " && has_cur st).
+  { flush_then. apply keeps_next. rewrite push_opt_has. congruence. }
+  destruct (startswith (strip line) "~ " && has_cur st).
+  { flush_then. apply keeps_next. rewrite push_tok_has. congruence. }
+  destruct (is_if_line (strip line) && negb (i =? start) && has_cur st).
+  { flush_then. apply keeps_bind. intros tk _. apply keeps_next. rewrite push_tok_has. congruence. }
+  destruct (is_for_line (strip line) && has_cur st).
+  { flush_then. apply keeps_bind. intros tk _. apply keeps_next. rewrite push_tok_has. congruence. }
+  destruct (is_if_line (strip line) && (i =? start)).
+  { apply keeps_bind. intros c _. apply keeps_next. reflexivity. }
+  destruct (String.eqb (strip line) "@endif:"); [apply keeps_diag|].
+  destruct (startswith (strip line) "<<endif>>" || String.eqb (strip line) "@endif").
+  { apply keeps_bind. intros brs E. split; intros; [discriminate|].
+    inversion H; subst. eapply finalize_nonempty; eauto. }
+  destruct (startswith (strip line) "<<elif " || startswith (strip line) "@elif ").
+  { apply keeps_bind. intros c _. apply start_new_branch_keeps. }
+  destruct (startswith (strip line) "<<else>>" || startswith (strip line) "@else").
+  { destruct (startswith (strip line) "@else" && _); [apply keeps_diag|apply start_new_branch_keeps]. }
+  destruct (startswith (strip line) "->").
+  { destruct (jump_of lf (strip line)); [|apply keeps_next; auto].
+    rewrite Hc. flush_then. apply keeps_next. rewrite push_tok_has. congruence. }
+  destruct (is_choice_line (strip line) && has_cur st).
+  { flush_then. apply keeps_bind. intros ch _. apply keeps_next. rewrite push_choice_has. congruence. }
+  rewrite Hc. apply keeps_next. unfold has_cur in *. simpl. exact Hc.
+Qed.
+
+(* the first step: the header line opens the first branch (or is rejected) *)
+Lemma cond_step_first : forall lines start line st,
+  has_cur st = false -> is_if_line (strip line) = true ->
+  keeps (cond_step fixed lf rec_cond rec_loop lines start start line st).
+Proof.
+  intros lines start line st Hc Hif. unfold cond_step. cbv zeta.
+  destruct (startswith (strip line) "#") eqn:Eh.
+  { apply hash_not_if in Eh. congruence. }
+  rewrite Hc, Hif, Nat.eqb_refl. repeat rewrite andb_false_r. simpl negb. simpl andb. cbv iota.
+  apply keeps_bind. intros c _. apply keeps_next. reflexivity.
+Qed.
+
+Lemma cond_go_has_branch : forall lines start rest i skip st brs n,
+  has_cur st = true ->
+  cond_go fixed lf rec_cond rec_loop lines start rest i skip st = POk (TCond brs, n) -> brs <> [].
+Proof.
+  induction rest as [|line rest IH]; intros i skip st brs n Hc H; cbn [cond_go] in H; [discriminate|].
+  destruct skip as [|k]; [|eapply IH; eauto].
+  destruct (cond_step_keeps lines start i line st Hc) as [K1 K2].
+  destruct (cond_step fixed lf rec_cond rec_loop lines start i line st) as [[st' [|k]|brs']|d|e|];
+    try discriminate.
+  - eapply IH; [|exact H]. eapply K1; eauto.
+  - assert (brs = brs') by congruence. subst. eapply K2; eauto.
+Qed.
+
+Lemma cond_body_has_branch : forall lines start l0 brs n,
+  nth_error lines start = Some l0 -> is_if_line (strip l0) = true ->
+  cond_body fixed lf rec_cond rec_loop lines start = POk (TCond brs, n) -> brs <> [].
+Proof.
+  intros lines start l0 brs n Hn Hif H. unfold cond_body in H.
+  destruct (skipn start lines) as [|x rest] eqn:Es.
+  - exfalso. assert (L : start < length lines) by (apply nth_error_Some; rewrite Hn; discriminate).
+    assert (L2 : length (skipn start lines) = 0) by (rewrite Es; auto). rewrite skipn_length in L2. lia.
+  - destruct (skipn_cons_nth _ _ _ _ _ Es) as [Hx _]. rewrite Hn in Hx. inversion Hx; subst x.
+    cbn [cond_go] in H.
+    destruct (cond_step_first lines start l0 cstate0 eq_refl Hif) as [K1 K2].
+    destruct (cond_step fixed lf rec_cond rec_loop lines start start l0 cstate0) as [[st' [|k]|brs']|d|e|];
+      try discriminate.
+    + eapply cond_go_has_branch; [|exact H]. eapply K1; eauto.
+    + assert (brs = brs') by congruence. subst. eapply K2; eauto.
+Qed.
+
+End Branches.
+
+Lemma extract_conditional_has_branch : forall fixed cap lf lines start l0 brs n,
+  nth_error lines start = Some l0 -> is_if_line (strip l0) = true ->
+  extract_conditional_block_v fixed cap lf lines start = POk (TCond brs, n) -> brs <> [].
+Proof.
+  intros fixed cap lf lines start l0 brs n Hn Hif H. unfold extract_conditional_block_v, block_fuel in H.
+  cbn [extract_conditional_block_f] in H. destruct (too_deep cap 0); [discriminate|].
+  eapply cond_body_has_branch; eauto.
+Qed.
+
+(* `@else:` / `<<else>>` open a branch whose condition is the text "True" *)
+Lemma else_branch_condition_True : forall lf st cv st' k,
+  start_new_branch lf st "True" cv = POk (CNext st' k) ->
+  exists brs, cs_cur st' = Some ("True", [], []) /\ cs_lines st' = [] /\ cs_branches st' = brs /\ k = 1.
+Proof.
+  intros lf st cv st' k H. unfold start_new_branch in H.
+  destruct (finalize lf st) as [brs|d|e|]; simpl in H; try discriminate.
+  inversion H; subst. simpl. eauto.
+Qed.
+
+(* ------------------------------------------------------------------------------------------- *)
+(* statements in the shape Props/C11b.v exports                                                  *)
+(* ------------------------------------------------------------------------------------------- *)
+
+(* hypotheses on the line-level functions *)
+Definition lf_total (lf : linefns) : Prop := lf_allowed false lf.       (* value or diagnostic *)
+Definition lf_no_fuel (lf : linefns) : Prop :=
+  (forall s, lf_content lf s <> POutOfFuel) /\ (forall s, lf_choice lf s <> POutOfFuel) /\
+  (forall s, lf_render lf s <> POutOfFuel) /\ (forall s, lf_input lf s <> POutOfFuel).
+
+Lemma no_fuel_allowed : forall A (r : pres A), r <> POutOfFuel -> allowed true r.
+Proof. intros A [a|d|i|] H; simpl; auto. Qed.
+
+Lemma lf_no_fuel_allowed : forall lf, lf_no_fuel lf -> lf_allowed true lf.
+Proof.
+  intros lf (H1 & H2 & H3 & H4). repeat split; intros; apply no_fuel_allowed; auto.
+Qed.
+
+Lemma lf_total_no_fuel : forall lf, lf_total lf -> lf_no_fuel lf.
+Proof.
+  intros lf (H1 & H2 & H3 & H4).
+  repeat split; intros s E; [specialize (H1 s)|specialize (H2 s)|specialize (H3 s)|specialize (H4 s)];
+    rewrite E in *; simpl in *; contradiction.
+Qed.
+
+Definition header_at (p : string -> bool) (lines : list string) (start : nat) : Prop :=
+  exists l0, nth_error lines start = Some l0 /\ p (strip l0) = true.
+
+Lemma contract_all : forall fixed cap lf lines start,
+  (forall c n, extract_python_block lines start = POk (c, n) ->
+               1 <= n /\ n <= S (length lines - start)) /\
+  (forall c n, extract_py_new_syntax lines start = POk (c, n) ->
+               1 <= n /\ n <= length lines - start) /\
+  (forall t n, extract_conditional_block_v fixed cap lf lines start = POk (t, n) ->
+               1 <= n /\ n <= length lines - start) /\
+  (forall t n, extract_loop_block_v fixed cap lf lines start = POk (t, n) ->
+               1 <= n /\ n <= length lines - start) /\
+  (forall indent ct ex n, extract_join_choice_block lf lines start indent = POk (ct, ex, n) ->
+               n <= length lines - start).
+Proof.
+  intros. repeat split; intros.
+  - apply extract_python_block_bounds in H; lia.
+  - apply extract_python_block_bounds in H; lia.
+  - apply extract_py_new_bounds in H; lia.
+  - apply extract_py_new_bounds in H; lia.
+  - apply extract_conditional_block_f_bounds in H; lia.
+  - apply extract_conditional_block_f_bounds in H; lia.
+  - apply extract_loop_block_f_bounds in H; lia.
+  - apply extract_loop_block_f_bounds in H; lia.
+  - eapply extract_join_bounds; eauto.
+Qed.
+
+Lemma shape_all : forall fixed cap lf lines start t n,
+  (extract_conditional_block_v fixed cap lf lines start = POk (t, n) -> exists brs, t = TCond brs) /\
+  (extract_loop_block_v fixed cap lf lines start = POk (t, n) -> exists v c ct chs, t = TLoop v c ct chs).
+Proof.
+  intros; split; intros H.
+  - apply extract_conditional_block_f_bounds in H; tauto.
+  - apply extract_loop_block_f_bounds in H; tauto.
+Qed.
+
+Lemma never_out_of_fuel_all : forall fixed cap lf lines start,
+  lf_no_fuel lf -> lf_progress lf ->
+  extract_python_block lines start <> POutOfFuel /\
+  extract_conditional_block_v fixed cap lf lines start <> POutOfFuel /\
+  (header_at is_for_line lines start -> extract_loop_block_v fixed cap lf lines start <> POutOfFuel) /\
+  (forall indent, extract_join_choice_block lf lines start indent <> POutOfFuel).
+Proof.
+  intros fixed cap lf lines start H1 H2. apply lf_no_fuel_allowed in H1. repeat split.
+  - destruct (nth_error lines start) as [l|] eqn:E.
+    + apply allowed_true_no_fuel. eapply (proj1 (extract_python_block_recok true lines start l E)).
+    + unfold extract_python_block. rewrite E. discriminate.
+  - apply allowed_true_no_fuel. apply extract_conditional_block_v_ok; auto.
+  - intros (l0 & Hn & Hf). apply allowed_true_no_fuel. eapply extract_loop_block_v_ok; eauto.
+  - intros indent. apply allowed_true_no_fuel. apply extract_join_allowed. apply H1.
+Qed.
+
+Lemma total_all : forall cap lf lines start,
+  lf_total lf -> lf_progress lf ->
+  (start < length lines -> ok_or_diag (extract_python_block lines start)) /\
+  ok_or_diag (extract_conditional_block_v true cap lf lines start) /\
+  (header_at is_for_line lines start -> ok_or_diag (extract_loop_block_v true cap lf lines start)) /\
+  (forall indent, ok_or_diag (extract_join_choice_block lf lines start indent)).
+Proof.
+  intros cap lf lines start H1 H2. repeat split.
+  - intros L. apply nth_error_Some in L. destruct (nth_error lines start) as [l|] eqn:E; [|congruence].
+    apply allowed_false_ok_or_diag. eapply (proj1 (extract_python_block_recok false lines start l E)).
+  - apply allowed_false_ok_or_diag. apply extract_conditional_block_v_ok; auto.
+  - intros (l0 & Hn & Hf). apply allowed_false_ok_or_diag. eapply extract_loop_block_v_ok; eauto.
+  - intros indent. apply allowed_false_ok_or_diag. apply extract_join_allowed. apply H1.
+Qed.
+
+(* with the cap, max_block_depth + 1 nested calls are enough for every input *)
+Lemma capped_depth_all : forall fixed lf n lines start,
+  lf_no_fuel lf -> lf_progress lf -> max_block_depth < n ->
+  extract_conditional_block_f fixed (Some max_block_depth) lf n 0 lines start <> POutOfFuel /\
+  (header_at is_for_line lines start ->
+   extract_loop_block_f fixed (Some max_block_depth) lf n 0 lines start <> POutOfFuel).
+Proof.
+  intros fixed lf n lines start H1 H2 Hn. apply lf_no_fuel_allowed in H1.
+  pose proof (extract_f_ok_capped fixed (Some max_block_depth) lf true H1 H2 (or_intror eq_refl)
+                max_block_depth eq_refl n) as [Kc Kl].
+  split.
+  - apply allowed_true_no_fuel. apply Kc. lia.
+  - intros (l0 & Hh & Hf). apply allowed_true_no_fuel. eapply Kl; eauto; lia.
+Qed.
+
+Lemma has_branch_all : forall fixed cap lf lines start brs n,
+  header_at is_if_line lines start ->
+  extract_conditional_block_v fixed cap lf lines start = POk (TCond brs, n) -> brs <> [].
+Proof. intros fixed cap lf lines start brs n (l0 & Hn & Hf) H. eapply extract_conditional_has_branch; eauto. Qed.
+
+(* sample line-level functions for the witnesses and non-vacuity examples *)
+Definition lf_sample : linefns :=
+  mkLinefns (fun s => if str_contains s "{" then PDiag (DSyntax "content:braces" 0) else POk [TText s])
+            (fun _ => POk None) (fun _ => POk None) (fun _ => POk None)
+            (fun _ _ c => (c, 1)) (fun s => (s, EmptyString)).
+
+Lemma lf_sample_total : lf_total lf_sample.
+Proof.
+  repeat split; intros s; simpl; auto. destruct (str_contains s "{"); simpl; auto.
+Qed.
+
+Lemma lf_sample_progress : lf_progress lf_sample.
+Proof. intros ls i c; simpl; lia. Qed.
